@@ -18,7 +18,12 @@ BLOCK_ORDER = ['forward']   # 'forward' | 'reverse' : order in which blocks are 
 CALLS = []                  # log of (kind, detail) for evidence
 
 
-def _norm_chunks(chunks, shape):
+def _norm_chunks(chunks, shape, current=None):
+    if isinstance(chunks, dict):
+        base = list(current) if current is not None else [(n,) for n in shape]
+        for ax, c in chunks.items():
+            base[ax] = c
+        chunks = tuple(base)
     if isinstance(chunks, int):
         chunks = (chunks,) * len(shape)
     out = []
@@ -104,8 +109,9 @@ class Array:
         return self._lazy(lambda a: a.astype(dt), dtype=dt)
 
     def rechunk(self, chunks):
-        return Array(self._whole, _norm_chunks(chunks, self.shape), self._thunk, self._shape, self._dtype) if self._whole is not None else \
-            Array(None, _norm_chunks(chunks, self.shape), self.compute, self._shape, self._dtype)
+        ch = _norm_chunks(chunks, self.shape, self.chunks)
+        return Array(self._whole, ch, self._thunk, self._shape, self._dtype) if self._whole is not None else \
+            Array(None, ch, self.compute, self._shape, self._dtype)
 
     def copy(self):
         return self._lazy(lambda a: a.copy())
